@@ -89,6 +89,20 @@ def r1_cache_coherence(chk, repo):
                 t = norm(cond)
                 chk.check("TEMP_DATA_TYPE_PREFIX" in t or "_temp" in t, "C02.R1", ch, stmt_of(c), f"registered plugins are excluded from the context hash by `{t}`", site_text="_context_hash: only temporary merge plugins are excluded")
 
+    # every memo of the context that is keyed by the context hash is dropped when a class is replaced:
+    # the hash does not see a same-name, same-version class swap
+    memo = set()
+    for f in ctx.methods.values():
+        for st in walk_body(f.node):
+            if isinstance(st, ast.Assign):
+                for t in st.targets:
+                    if isinstance(t, ast.Attribute) and isinstance(t.value, ast.Name) and t.value.id == "self" and t.attr.startswith("_fixed_") and isinstance(st.value, (ast.Dict, ast.Call)):
+                        memo.add(t.attr)
+    reg = repo.func("Context.register", CONTEXT)
+    reset = {t.attr for st in walk_body(reg.node) if isinstance(st, ast.Assign) and isinstance(st.value, ast.Constant) and st.value.value is None for t in st.targets if isinstance(t, ast.Attribute)}
+    chk.floor("C02.R1", "hash-keyed memos of Context", len(memo), 2)
+    for a in sorted(memo):
+        chk.check(a in reset, "C02.R1", reg, None, f"the memo `self.{a}` is filled under the context hash but not dropped by register(): after a same-name, same-version class is re-registered (other dependencies, other defaults) its stale entries are still used", site_text=f"Context.register resets self.{a}", site={"function": reg.qualname, "memo": a})
     # cache reads keyed by the hash
     n_reads = 0
     for f in ctx.methods.values():
@@ -430,12 +444,20 @@ def r6_config_ownership(chk, repo):
         okm = len(merges) == 1 and len(merges[0].value.args) >= 2 and norm(merges[0].value.args[0]) == "self.config" and norm(merges[0].value.args[1]) == CFGP and norm(kw(merges[0].value, "mode") or ast.Constant(value="update")) == "'update'"
         okm = okm and kw(cons[0], "config") is not None and norm(kw(cons[0], "config")) == CFGP and ("replace", False) in ncfg.guard_facts(ncfg.node_of(merges[0])) if merges else False
         chk.check(okm, R, nc, merges[0] if merges else stmt_of(cons[0]), "a derived context is not built from `parent options updated with the given options`: the given options lose against the parent's, and the derived context reads the parent's stored data under the parent's key", site_text="new_context: config = combine_configs(self.config, config, mode='update') unless replace", site={"function": nc.qualname, "rule": "given options win"})
+        child0 = stmt_of(cons[0]).targets[0].id if isinstance(stmt_of(cons[0]), ast.Assign) and isinstance(stmt_of(cons[0]).targets[0], ast.Name) else None
+        regs = [st for st in walk_body(nc.node) if isinstance(st, ast.Assign) and child0 and norm(st.targets[0]) == f"{child0}._plugin_class_registry"]
+        chk.check(len(regs) == 1 and norm(regs[0].value) in ("self._plugin_class_registry.copy()", "dict(self._plugin_class_registry)") and ("replace", False) in ncfg.guard_facts(ncfg.node_of(regs[0])) and enclosing(regs[0], (ast.If,)) is not None and len([g for g in ncfg.dominating_guards(ncfg.node_of(regs[0])) if g.test is not None]) == 1, R, nc, regs[0] if regs else None,
+                  "the derived context does not get its own copy of the plugin registry (unconditionally, unless replace): registrations and clean-ups of temporary plugins in one context then change the other - with several workers one worker's clean-up removes the plugin another has just registered", site_text="new_context: child registry = parent registry .copy()", site={"function": nc.qualname, "rule": "registry copied"})
         child = stmt_of(cons[0]).targets[0].id if isinstance(stmt_of(cons[0]), ast.Assign) and isinstance(stmt_of(cons[0]).targets[0], ast.Name) else None
         late = [c for c in calls_in(nc.node) if child and isinstance(c.func, ast.Attribute) and norm(c.func.value) == child and c.func.attr in ("set_config",) and any("self.config" in norm(a) for a in list(c.args) + [k.value for k in c.keywords])]
         chk.check(not late, R, nc, stmt_of(late[0]) if late else None, "the parent's options are applied to the derived context after it was built: they override what was passed to new_context", site_text="new_context: parent's options are not re-applied on top")
 
 
 WITNESSES = [
+    W("derived context shares the parent's registry", "C02.R6", CONTEXT,
+      "new_c._plugin_class_registry = self._plugin_class_registry.copy()", "new_c._plugin_class_registry = self._plugin_class_registry"),
+    W("a second hash-keyed memo that register() forgets", "C02.R1", CONTEXT,
+      "self._fixed_plugin_cache = None\n                self._fixed_level_cache = None", "self._fixed_plugin_cache = None"),
     W("combine_configs returns the old dict when nothing is added", "C02.R6", "strax/config.py",
       "if mode == \"update\":\n        c = old_config.copy()", "if mode == \"update\":\n        if not new_config:\n            return old_config\n        c = old_config.copy()"),
     W("set_config updates in place", "C02.R6", CONTEXT,
